@@ -110,7 +110,7 @@ PROPS = {
     },
     "C10": {
         "facts": facts.gen_pure_fns, "runs": ft_runs, "replay_runs": replay_runs, "monitor": mon_filetree.c10,
-        "diff_relevant": lambda d: d["mod"] == "filetree",
+        "diff_relevant": lambda d: d["mod"] == "filetree" or (d["mod"] == "query" and d["op"].startswith("filetree.")),
         "trusted_base": FT_TRUST,
         "assumptions": ["ownership is the chain's own predicate H('o'+address+H(signer)) = entry.owner (hash collisions out of scope)", "signers are well-formed bech32 addresses"],
     },
